@@ -304,17 +304,9 @@ pub fn check_summaries(kind: Kind, img: &[u8], w: &Walked) -> Result<(), String>
                     if rl < 8 || rl > len - o {
                         return Err(format!("RQSC controller at {}: resource at +{} declares length {} ({} remain)", off, o, rl, len - o));
                     }
-                    let idt = e[o + 7];
-                    let want = match idt {
-                        0 | 2 | 3 => Some(20),
-                        1 => Some(28),
-                        _ => None,
-                    };
-                    if let Some(wl) = want {
-                        if rl != wl {
-                            return Err(format!("RQSC resource at {}+{} id type {} has length {}, expected {}", off, o, idt, rl, wl));
-                        }
-                    }
+                    // (the resource's own length field is what frames it; a vendor-specific id may
+                    // carry any payload size under any type code, so no per-type size is imposed here —
+                    // the per-type layouts are C04's business)
                     found += 1;
                     o += rl;
                 }
